@@ -4,7 +4,7 @@ from .core import *
 from .gen import *
 from .runner import *
 
-P = KW['print']; VAR = KW['var']; FUN = KW['fun']; IF = KW['if']; WHILE = KW['while']; TRUE = KW['true']; RET = KW['return']; BRK = KW['break']
+P = KW['print']; VAR = KW['var']; FUN = KW['fun']; IF = KW['if']; WHILE = KW['while']; TRUE = KW['true']; RET = KW['return']; BRK = KW['break']; CONT = KW['continue']; FOR = KW['for']
 INP = NAT['input']
 
 def c19(tier, rng):
@@ -109,14 +109,25 @@ def c20(tier, rng):
         f'{P} 1 + 2;', '1 + 2;', '"text";', 'nil;', '[1, {a: 2}];', f'{LEN}([1, 2, 3]);', f'{MAX}(3, 9);', f'{VAR} v = 5;', 'v;', 'v = v + 1;', f'{FUN} h() {{ {RET} 7; }}', 'h();',
         '@', '"unterminated', '1 +;', f'{P} (;', f'{VAR} = 3;', 'nope;', '1 / 0;', f'{LEN}(5);', f'{P} [1][4];', f'{LEN} = 5;', f'{LEN} = 5; {LEN}([1]);', f'{MAX} = 0; 1 / {MAX};', f'{P} 1 {P} 2;', '{',
         '1' + '0' * 400 + ';', '১' + '০' * 400 + ';', f'{P} ' + '৯' * 310 + '.৫;', '/* open', f'{P} "a" + ৫;', f'{VAR} বড় = ' + '৯' * 309 + ';',
+        f'{FUN} e1() {{ {RET}; }} e1();', f'{FUN} e2() {{ }} e2();', f'{FUN} e3() {{ {RET} nil; }} e3();', f'{RET} 42;', f'{RET} "kept";', f'{RET} [1, 2];', f'{FUN} e4() {{ {WHILE} ({TRUE}) {{ {BRK}; }} }} e4();',
+        f'{FUN} e5() {{ {FOR} ({VAR} i = 0; i < 2; i = i + 1) {{ {CONT}; }} }} e5();', f'{CONT};',
         f'{BRK};', f'{RET} 1;', '', '   ', '// comment', f'{IF} ({TRUE}) 3;', f'{VAR} a = 1; {VAR} a = 2;', '1; 2; 3;', f'{WHILE} ({TRUE}) {{ {BRK}; }}', 'x' * 70000 + ';',
     ]
     probes = [f'{LEN}([1, 2, 3]);', f'{MAX}(3, 9);', '1 + 2;', f'{P} "p";', '"s" + 1;']
+    # a probe that exercises every way a call can end (bare return, no return, value) and every loop exit
+    probes_fn = [f'{FUN} z() {{ {RET}; }} z();', f'{FUN} z() {{ }} z();', f'{FUN} z(n) {{ {WHILE} (n > 0) {{ n = n - 1; {IF} (n == 1) {{ {BRK}; }} }} {RET} n; }} z(3);']
     cli = []
     L = 2 if tier == 'quick' else 3
     for n in range(1, L + 1):
         for seq in itertools.product(range(len(pool) - 1), repeat=n):
             for pr in (probes if n <= 1 or tier == 'thorough' else probes[:2]):
+                lines = [pool[i] for i in seq] + [pr]
+                cli.append(CliCase('session', [], {}, ('\n'.join(lines) + '\n').encode(), None, note=(len(lines), pr)))
+    for n in (1, 2):
+        for seq in itertools.product(range(len(pool) - 1), repeat=n):
+            if n == 2 and tier == 'quick' and (seq[0] * 31 + seq[1]) % 3:
+                continue
+            for pr in probes_fn:
                 lines = [pool[i] for i in seq] + [pr]
                 cli.append(CliCase('session', [], {}, ('\n'.join(lines) + '\n').encode(), None, note=(len(lines), pr)))
     cli.append(CliCase('session', [], {}, (pool[-1] + '\n1 + 1;\n').encode(), None, note=(2, '1 + 1;')))
@@ -141,10 +152,10 @@ def c20(tier, rng):
         for pr in (probes if tier == 'thorough' else probes[:2]):
             cli.append(CliCase('impl-only-session', [], {}, ('\n'.join(hl + [pr]) + '\n').encode(), None, note=(len(hl) + 1, pr)))
     # the response to each probe as the first line of a fresh session
-    for pr in probes + ['1 + 1;']:
+    for pr in probes + probes_fn + ['1 + 1;']:
         cli.append(CliCase('fresh-probe', [], {}, (pr + '\n').encode(), None, note=pr))
     rule = (f'every session of <= {L} lines over a pool of {len(pool) - 1} representative lines (statements, bare expressions of every kind, lexical / syntax / runtime errors incl. out-of-range literals in both scripts and an open comment, assignments to built-in names, stray signals, blank and comment lines) '
-            f'followed by a probe line that uses only literals and built-ins; {m} random sessions of 4..28 lines; {len(hist)} long histories of failure (thousands of failing lines, lines failing up to {100000 if tier == "thorough" else 40000} calls deep; implementation alone) before each probe; a 70 000-character line; missing final newline, CRLF, empty input. Compared with the model (stdout split at the prompts, stderr, status 0); '
+            f'followed by a probe line that uses only literals and built-ins (and by three probes that define and call a function ending in a bare return, no return, a loop exit); {m} random sessions of 4..28 lines; {len(hist)} long histories of failure (thousands of failing lines, lines failing up to {100000 if tier == "thorough" else 40000} calls deep; implementation alone) before each probe; a 70 000-character line; missing final newline, CRLF, empty input. Compared with the model (stdout split at the prompts, stderr, status 0); '
             'on the implementation alone: the probe answers exactly as in a fresh session. Non-trivial = every session.')
     return {'cli': cli, 'cases': [], 'rule': rule, 'exhaustive': True, 'cli_oracles': [cli_oracle_c20], 'cli_timeout': 20}
 
